@@ -181,6 +181,10 @@ pub struct SchemaGen<'a> {
     pub reuse_uuids: Vec<String>,
     /// types of imported schemas usable as `schema::Type` anywhere a type is expected
     ext_types: Vec<(String, String)>,
+    /// newtypes of importable schemas that resolve to a key type (set by the caller)
+    pub ext_key_types: Vec<(String, String)>,
+    /// newtypes (own or imported) that resolve to a key type: legal as map keys / set elements
+    key_newtypes: Vec<AType>,
 }
 
 fn camel(w: &[&str]) -> String {
@@ -195,7 +199,7 @@ fn camel(w: &[&str]) -> String {
 
 impl<'a> SchemaGen<'a> {
     pub fn new(r: &'a mut Rng, cfg: GenCfg) -> Self {
-        SchemaGen { r, cfg, used_names: Vec::new(), type_names: Vec::new(), const_ints: Vec::new(), uuid_n: 0, reuse_uuids: Vec::new(), ext_types: Vec::new() }
+        SchemaGen { r, cfg, used_names: Vec::new(), type_names: Vec::new(), const_ints: Vec::new(), uuid_n: 0, reuse_uuids: Vec::new(), ext_types: Vec::new(), ext_key_types: Vec::new(), key_newtypes: Vec::new() }
     }
 
     fn words(&mut self, n: usize) -> Vec<&'static str> {
@@ -306,6 +310,18 @@ impl<'a> SchemaGen<'a> {
         p
     }
 
+    /// A legal key type: a built-in key type or a newtype that resolves to one.
+    fn key_ty(&mut self) -> AType {
+        if !self.key_newtypes.is_empty() && self.r.chance(1, 4) {
+            return self.r.pick(&self.key_newtypes).clone();
+        }
+        self.r.pick(&KEY_TYPES).clone()
+    }
+
+    fn is_key(&self, t: &AType) -> bool {
+        KEY_TYPES.contains(t) || self.key_newtypes.contains(t)
+    }
+
     pub fn ty(&mut self, depth: usize) -> AType {
         let leaf = depth >= 3 || self.r.chance(1, 2);
         if leaf {
@@ -341,8 +357,11 @@ impl<'a> SchemaGen<'a> {
             0 => AType::Option(Box::new(self.ty(d))),
             1 => AType::Box(Box::new(self.ty(d))),
             2 => AType::Vec(Box::new(self.ty(d))),
-            3 => AType::Map(Box::new(self.r.pick(&KEY_TYPES).clone()), Box::new(self.ty(d))),
-            4 => AType::Set(Box::new(self.r.pick(&KEY_TYPES).clone())),
+            3 => {
+                let k = self.key_ty();
+                AType::Map(Box::new(k), Box::new(self.ty(d)))
+            }
+            4 => AType::Set(Box::new(self.key_ty())),
             5 => AType::Result(Box::new(self.ty(d)), Box::new(self.ty(d))),
             6 => {
                 let len = if !self.const_ints.is_empty() && self.r.chance(1, 3) { ALen::Const(self.r.pick(&self.const_ints).clone()) } else { ALen::Lit(1 + self.r.below(4) as u32) };
@@ -501,6 +520,13 @@ impl<'a> SchemaGen<'a> {
             }
         }
         self.ext_types = ext.clone();
+        self.key_newtypes = self.ext_key_types.iter().filter(|(a, _)| s.imports.iter().any(|(_, i)| i == a)).map(|(a, b)| AType::Extern(a.clone(), b.clone())).collect();
+        // the same schema may be imported twice (legal, warned about)
+        if !s.imports.is_empty() && self.r.chance(1, 8) {
+            let (_, again) = self.r.pick(&s.imports).clone();
+            let c = if self.cfg.comments { vec![self.doc_text()] } else { vec![] };
+            s.imports.push((c, again));
+        }
         let ndefs = 1 + self.r.below(self.cfg.max_defs);
         // declare names first so that forward and recursive references are possible
         let mut kinds = Vec::new();
@@ -569,7 +595,13 @@ impl<'a> SchemaGen<'a> {
                 }
                 _ => {
                     let pre = self.prelude(true);
-                    ADef::Newtype { pre, name: n, ty: self.ty(0) }
+                    // one in three: a newtype over a key type (possibly through other newtypes,
+                    // possibly imported ones), usable as a map key or set element further down
+                    let ty = if self.r.chance(1, 3) { self.key_ty() } else { self.ty(0) };
+                    if self.is_key(&ty) {
+                        self.key_newtypes.push(AType::Named(n.clone()));
+                    }
+                    ADef::Newtype { pre, name: n, ty }
                 }
             };
             s.defs.push(def);
